@@ -62,7 +62,18 @@ def hull_case(draw):
     else:
         sysd = draw(matrix_system(m=(3, 4), shape="over", ub_kinds=("finite",)))
     rows = draw(target_rows(sysd, ["interior", "interior", "near_in", "near_out", "outside", "vertex", "random", "below_lb", "below_lb"], nrows=(2, 6)))
+    if cfg == "flat":
+        # in the plane of the flat gamut, just beyond one source's maximum (0.01 % .. 1 % of its range)
+        sv_ = Sys(sysd)
+        for _ in range(draw(st.integers(1, 2))):
+            x = sv_.lb + np.asarray(draw(gens.array((sv_.n,), 0.2, 0.8, styles=("raw",)))) * sv_.range
+            j = draw(st.integers(0, sv_.n - 1))
+            x[j] = sv_.ub[j] + draw(gens.log_uniform(1e-4, 1e-2)) * sv_.range[j]
+            rows.append(dict(b=sv_.predict(x).tolist(), kind="slightly_over"))
     s, c, asserted = draw(unit_factors(Sys(sysd)))
+    if cfg == "flat" and (not asserted or draw(st.booleans())):
+        asserted = False
+        c = draw(st.sampled_from([1e5, 1e6, 1e7])) / max(Sys(sysd).extent, 1e-9)     # large capture numbers
     return dict(system=sysd, rows=rows, s=s, c=c, asserted=asserted, cfg=cfg)
 
 
